@@ -118,6 +118,8 @@ class Sys(e1.TimedSys):
         if self.lifecycle and not self.held:
             acts.append(("ann-stop",) if self.model.started else ("ann-start",))
             acts.append(("find", "P1"))
+            # an SD message from the peer that reveals its reboot: what is queued for it is still owed
+            acts.append(("evidence", "P1"))
         return acts
 
     def do(self, act):
@@ -153,6 +155,11 @@ class Sys(e1.TimedSys):
                 m.real_owed += [(act[1], 1, False, True), (act[1], 2, False, True)]  # not specified in this window
             data = refcodec.sd_message(self.find_session, [("find", self.realsid, 0xFFFF, 0xFF, 3, 0xFFFFFFFF, (), ())])
             self.prot.datagram_received(data, DEST[act[1]], False)
+
+        elif act[0] == "evidence":
+            data = refcodec.sd_message(max(self.find_session, 1), [])
+            self.prot.datagram_received(data, DEST[act[1]], False)
+            self.prot.datagram_received(data, DEST[act[1]], False)  # same session id again, reboot flag set
 
     def after_step(self, ev):
         m = self.model
